@@ -85,6 +85,26 @@ func unbound(p *Prog, f *ssa.Function) *ssa.Function {
 // slice/array literal at the loop's index (for _, row := range literal); it
 // returns the literal's backing array and the field number.
 func elemFieldOfLiteral(v ssa.Value) (*ssa.Alloc, int, bool) {
+	/* row.f where row is the element value itself (a copy split into its
+	fields): Field(load(&literal[i]), f). */
+	if fx, ok := stripConv(v, false).(*ssa.Field); ok {
+		if ld, ok := fx.X.(*ssa.UnOp); ok && token.MUL == ld.Op {
+			if ia, ok := ld.X.(*ssa.IndexAddr); ok {
+				if _, isConst := ia.Index.(*ssa.Const); !isConst {
+					x := ia.X
+					if sl, ok := x.(*ssa.Slice); ok && nil == sl.Low && nil == sl.High {
+						x = sl.X
+					}
+					if arr, ok := x.(*ssa.Alloc); ok {
+						if _, isArr := arr.Type().Underlying().(*types.Pointer).Elem().Underlying().(*types.Array); isArr {
+							return arr, fx.Field, true
+						}
+					}
+				}
+			}
+		}
+		return nil, 0, false
+	}
 	u, ok := stripConv(v, false).(*ssa.UnOp)
 	if !ok || token.MUL != u.Op {
 		return nil, 0, false
